@@ -8,6 +8,18 @@ FW = g.FAMILIES["move_fw"] + ["sum_fw", "max_fw", "min_fw", "argmax", "argmin", 
                               "matmul_fw", "conv2d_fw", "pool_fw"]
 
 
+def big_padding_probe(ctx):
+    """D29 regression: paddings/strides near 2^32 (outside the unary-nat model's reach) on both backends."""
+    drv = pv.build_harness("plain", "bigpad_drv")
+    rc, out = pv.sh(drv, timeout=120)
+    ctx.cov["big_padding_probe"] = out.strip()[:300]
+    fails = [l for l in out.splitlines() if l.startswith("FAIL")]
+    for l in fails[:2]:
+        ctx.violation("bigpad", {"kind": "wrong-value", "witness": "conv2d/max_pool2d huge padding :: " + l, "replay_cmd": drv}, True, l)
+    if rc != 0 or ("ok" not in out and not fails):
+        ctx.violation("bigpad-crash", {"kind": "crash", "rc": rc, "witness": "bigpad_drv crashed", "output": out[-300:]}, True, "bigpad_drv rc=%d" % rc)
+
+
 def run(ctx):
     ctx.level = "proof"
     res = ctx.prove()
@@ -15,6 +27,7 @@ def run(ctx):
     tc.run_stream(ctx, "tensor-fw-naive", FW, n, backend="naive",
                   exhaustive_ops=("sum_fw", "max_fw", "flip_fw", "argmax") if ctx.quick() else ("sum_fw", "max_fw", "min_fw", "flip_fw", "argmax", "argmin"))
     tc.optional_part(ctx, "scalar", "run_part", "C02")
+    big_padding_probe(ctx)
     ctx.cov["rule"] = ("cases = calls of every modelled forward Device entry point on the Naive backend with shapes of depth 0..8 (size-1 axes anywhere), "
                        "axes below/at/beyond the depth and >= 8, batch 1 vs B on each operand, invalid arguments mixed in; data-movement kernels get index-identity "
                        "inputs (the output IS the kernel's dst<-src map), arithmetic kernels small integers (exact in float32), compared bitwise with the extracted "
